@@ -34,6 +34,7 @@ type SpecEnv struct {
 	rets []SpecVal
 	bound map[string]bool
 	quantDepth int
+	ghostSt    *State
 }
 
 func (f *Frame) baseEnv(st *State) *SpecEnv {
@@ -302,7 +303,11 @@ func (env *SpecEnv) eval(x ast.Expr) (SpecVal, error) {
 				if !ok {
 					return SpecVal{}, fmt.Errorf("%s(%s)[%d]: no call of %s precedes this point (pattern must be tracked)", id.Name, pat, iv.T.c, pat)
 				}
-				return SpecVal{T: e.heap(env.st, gn, s), Typ: e.ghostTypes[gn]}, nil
+				gst := env.st
+				if env.ghostSt != nil {
+					gst = env.ghostSt
+				}
+				return SpecVal{T: e.heap(gst, gn, s), Typ: e.ghostTypes[gn]}, nil
 			}
 		}
 		base, err := env.eval(n.X)
@@ -754,9 +759,15 @@ func (env *SpecEnv) callExpr(n *ast.CallExpr) (SpecVal, error) {
 			return SpecVal{}, fmt.Errorf("old() not available here")
 		}
 		save := env.st
+		if env.ghostSt == nil {
+			env.ghostSt = env.st // ret()/called()/argof() always refer to the call history up to now
+		}
 		env.st = env.old
 		v, err := env.eval(n.Args[0])
 		env.st = save
+		if env.ghostSt == save {
+			env.ghostSt = nil
+		}
 		return v, err
 	case "called":
 		if len(n.Args) != 1 {
@@ -770,7 +781,11 @@ func (env *SpecEnv) callExpr(n *ast.CallExpr) (SpecVal, error) {
 		if !e.predecl[gn+"@0"] {
 			e.predeclare(gn+"@0", fmt.Sprintf("(declare-const %s@0 Bool)\n(assert (not %s@0))", gn, gn))
 		}
-		return SpecVal{T: e.heap(env.st, gn, SBool), Typ: boolT}, nil
+		gst := env.st
+		if env.ghostSt != nil {
+			gst = env.ghostSt
+		}
+		return SpecVal{T: e.heap(gst, gn, SBool), Typ: boolT}, nil
 	case "len", "cap":
 		args, err := evalArgs()
 		if err != nil || len(args) != 1 {
@@ -820,6 +835,24 @@ func (env *SpecEnv) callExpr(n *ast.CallExpr) (SpecVal, error) {
 			return SpecVal{}, fmt.Errorf("sameslice needs slices")
 		}
 		return SpecVal{T: and(eq(sReg(a), sReg(b)), eq(sOff(a), sOff(b)), eq(sLen(a), sLen(b))), Typ: boolT}, nil
+	case "haskey":
+		args, err := evalArgs()
+		if err != nil || len(args) != 2 || args[0].Typ == nil {
+			return SpecVal{}, fmt.Errorf("haskey(m, k): %v", err)
+		}
+		mt, ok := args[0].Typ.Underlying().(*types.Map)
+		if !ok {
+			return SpecVal{}, fmt.Errorf("haskey needs a map")
+		}
+		pn, ps, _, _ := e.mapHeaps(mt)
+		k := env.convTo(args[1], mt.Key())
+		return SpecVal{T: and(not(eq(args[0].T, i64(0))), sel(sel(e.heap(env.st, pn, ps), args[0].T), k.T)), Typ: boolT}, nil
+	case "sameregion":
+		args, err := evalArgs()
+		if err != nil || len(args) != 2 || args[0].T.Sort != SSlice || args[1].T.Sort != SSlice {
+			return SpecVal{}, fmt.Errorf("sameregion needs two slices: %v", err)
+		}
+		return SpecVal{T: eq(sReg(args[0].T), sReg(args[1].T)), Typ: boolT}, nil
 	case "eqbytes":
 		// eqbytes(a, b): same length and same content (in the current state);
 		// eqbytes(a, old(b)) works because old() switches the state for its argument only — contents
